@@ -583,6 +583,41 @@ func (m *c17m) families() {
 			}
 		}
 	}
+	// object keys spelled in several Unicode normalization forms: every way of filling k slots of the map with the
+	// NFC spelling, the NFD spelling, the other attribute and a stray key; whatever is accepted must have every attribute
+	{
+		mpStr := func(s string) []byte { return append(mpHeader("str", uint64(len(s)), 0, 0), s...) }
+		nfc, nfd := "caf\u00e9", "cafe\u0301"
+		oty := cty.Object(map[string]cty.Type{nfc: str, "id": str})
+		oty3 := cty.Object(map[string]cty.Type{nfc: str, "id": str, "z": str})
+		keys := []string{nfc, nfd, "id", "z", "stray"}
+		var fill func(k int, cur []string, f func([]string))
+		fill = func(k int, cur []string, f func([]string)) {
+			if k == 0 {
+				f(cur)
+				return
+			}
+			for _, key := range keys {
+				fill(k-1, append(cur[:len(cur):len(cur)], key), f)
+			}
+		}
+		for k := 1; k <= 3; k++ {
+			fill(k, nil, func(ks []string) {
+				b := mpHeader("map", uint64(len(ks)), 0, 0)
+				for i, key := range ks {
+					b = append(append(b, mpStr(key)...), mpStr(fmt.Sprintf("v%d", i))...)
+				}
+				for _, t := range []cty.Type{oty, oty3} {
+					ctx.Eval("family object-key-spellings "+c17mShort(b)+" "+c17jTyWire(t), true)
+					m.add(c17mCase{b: b, t: t, tag: "family-object-key-spellings"})
+					m.add(c17mCase{b: append([]byte{0x91}, b...), t: cty.List(t), tag: "family-object-key-spellings"})
+					tj, _ := t.MarshalJSON()
+					w := append(append([]byte{0x92}, mpHeader("bin", uint64(len(tj)), 0, 0)...), tj...)
+					m.add(c17mCase{b: append(w, b...), t: cty.DynamicPseudoType, tag: "family-object-key-spellings"})
+				}
+			})
+		}
+	}
 	// extension items, type code 12, bodies of the boundary lengths
 	for _, n := range []int{0, 1, 2, 3, 1023, 1024, 1025, 4096} {
 		for _, fill := range []byte{0xc0, 0x00, 0x81} {
